@@ -349,14 +349,15 @@ class WatchDeque(M.MDeque):
   (stop / cancel) has returned: fresh = the timer's last look at its run flag was after the return as well (nothing can excuse
   that post), stale = it looked before the return and posts after (the check-then-post window)"""
 
-  def __init__(self, name, maxlen, timer_tids, items=()):
+  def __init__(self, name, maxlen, timer_tids, items=(), watched=None):
     super().__init__(name, maxlen, items)
     self.timer_tids = timer_tids
+    self.watched = timer_tids if watched is None else watched     # timers of the sources the watched call has to stop
 
   def apply(self, B, st, op, args, tid):
     outs = super().apply(B, st, op, args, tid)
     if op in ("append", "appendleft") and tid in self.timer_tids:
-      ret = B.eq(st["g.returned"], B.const(1))
+      ret = B.eq(st["g.returned"], B.const(1)) if tid in self.watched else B.false()
       fresh = B.eq(st["g.checked_after.%d" % tid], B.const(1))
       res = []
       for (c, kind, r, up) in outs:
@@ -409,7 +410,8 @@ def stopping(action="stop", handler_stop=False, pending=0, sources=1, times=2, d
   n_threads_before_timers = 2
   timer_tids = [n_threads_before_timers + i for i in range(sources)]
   Q = sc.add(M.MQueue("Q", capacity, count=len(pend)))
-  D = sc.add(WatchDeque("D", capacity, timer_tids, items=[e.rid for e in pend]))
+  watched = [timer_tids[i] for i in range(sources) if action == "stop" or i == 0 or (action == "cancel_events" and not other_source)]
+  D = sc.add(WatchDeque("D", capacity, timer_tids, items=[e.rid for e in pend], watched=watched))
   sc.elem_typ["D"] = ("rec", EV)
   task_event = sc.add(M.MEvent("task_event", 1))
   fabric_event = sc.add(M.MEvent("fabric_event", 1))
